@@ -130,26 +130,34 @@ mod proofs {
     conv_harness!(conv_u8_bin, u8, false, Binary, 2, 6);
     conv_harness!(conv_u8_oct, u8, false, Octal, 8, 4);
 
-    // ---- Node::child: case-insensitive first match (C01, C11)
-    use microscpi::Node;
-    static LEAF_A: Node = Node { children: &[], command: Some(1), query: None };
-    static LEAF_B: Node = Node { children: &[], command: Some(2), query: None };
-    static LEAF_C: Node = Node { children: &[], command: None, query: Some(3) };
-    static LEAF_D: Node = Node { children: &[], command: Some(4), query: Some(5) };
-    static LEAF_E: Node = Node { children: &[], command: Some(6), query: None };
-    static ROOT: Node = Node {
-        children: &[("VOLT", &LEAF_A), ("VOLT_AC", &LEAF_B), ("VOLTAGE", &LEAF_C), ("Z", &LEAF_D), ("*Z9", &LEAF_E)],
-        command: None,
-        query: None,
-    };
+    // ---- Node::child on a macro-built tree: case-insensitive match of the declared spellings (C01, C11)
+    use microscpi::{Interface, Node};
+    pub struct KDev;
+    impl microscpi::ErrorHandler for KDev {
+        fn handle_error(&mut self, _e: Error) {}
+    }
+    #[microscpi::interface]
+    impl KDev {
+        #[scpi(cmd = "VOLTage")]
+        fn h0(&mut self) -> Result<(), Error> { Ok(()) }
+        #[scpi(cmd = "VOLT_AC")]
+        fn h1(&mut self) -> Result<(), Error> { Ok(()) }
+        #[scpi(cmd = "Z")]
+        fn h2(&mut self) -> Result<(), Error> { Ok(()) }
+        #[scpi(cmd = "*Z9")]
+        fn h3(&mut self) -> Result<(), Error> { Ok(()) }
+        #[scpi(cmd = "ZZ")]
+        fn h4(&mut self) -> Result<(), Error> { Ok(()) }
+    }
 
     fn fold(b: u8) -> u8 { if b >= b'a' && b <= b'z' { b - 32 } else { b } }
 
+    /// which declaration a root-level mnemonic spells (short or long form), from the declaration strings
     fn reference_child(name: &[u8]) -> Option<usize> {
-        let keys: [&[u8]; 5] = [b"VOLT", b"VOLT_AC", b"VOLTAGE", b"Z", b"*Z9"];
+        let keys: [(&[u8], usize); 6] = [(b"VOLT", 0), (b"VOLTAGE", 0), (b"VOLT_AC", 1), (b"Z", 2), (b"*Z9", 3), (b"ZZ", 4)];
         let mut k = 0;
-        while k < 5 {
-            let key = keys[k];
+        while k < 6 {
+            let key = keys[k].0;
             if key.len() == name.len() {
                 let mut same = true;
                 let mut i = 0;
@@ -157,7 +165,7 @@ mod proofs {
                     if fold(key[i]) != fold(name[i]) { same = false; }
                     i += 1;
                 }
-                if same { return Some(k); }
+                if same { return Some(keys[k].1); }
             }
             k += 1;
         }
@@ -173,11 +181,11 @@ mod proofs {
         let mut i = 0;
         while i < 7 { kani::assume(bytes[i] < 128); i += 1; }
         let name = core::str::from_utf8(&bytes[..n]).unwrap();
-        let got = ROOT.child(name);
+        let dev = KDev;
+        let got = dev.root_node().child(name);
         let want = reference_child(&bytes[..n]);
-        let nodes: [&'static Node; 5] = [&LEAF_A, &LEAF_B, &LEAF_C, &LEAF_D, &LEAF_E];
         match want {
-            Some(k) => assert!(got.is_some() && core::ptr::eq(got.unwrap(), nodes[k])),
+            Some(k) => assert!(got.is_some() && got.unwrap().command == Some(k)),
             None => assert!(got.is_none()),
         }
         kani::cover!(got.is_some(), "reached: some name matches");
